@@ -178,6 +178,20 @@ func (v *Verifier) evalCall(fr *Frame, st *State, x *ast.CallExpr) Val {
 			a := v.evalSpec(fr, st, x.Args[0]).(SliceVal)
 			b := v.evalSpec(fr, st, x.Args[1]).(SliceVal)
 			return Scalar{c.Or(c.Not(c.Eq(a.Ref, b.Ref)), v.iLe(v.iAdd(a.Off, a.Len), b.Off), v.iLe(v.iAdd(b.Off, b.Len), a.Off)), types.Typ[types.Bool]}
+		case "allocated": // allocated(x), only inside an assume clause: x (slice or pointer) is a newly allocated object
+			if !v.assumingAfter {
+				panic(unsupportedf(x.Pos(), "allocated(...) is only meaningful inside an assume clause"))
+			}
+			ref := v.freshRef(st)
+			switch o := v.evalSpec(fr, st, x.Args[0]).(type) {
+			case SliceVal:
+				return Scalar{c.Eq(o.Ref, ref), types.Typ[types.Bool]}
+			case PtrVal:
+				if o.Loc == nil {
+					return Scalar{c.And(c.Eq(o.Ref, ref), c.Not(o.Nil)), types.Typ[types.Bool]}
+				}
+			}
+			panic(unsupportedf(x.Pos(), "allocated(...): argument is not a slice or heap pointer"))
 		case "separate": // separate(s, t): the two slices live in different allocations
 			a := v.evalSpec(fr, st, x.Args[0]).(SliceVal)
 			b := v.evalSpec(fr, st, x.Args[1]).(SliceVal)
